@@ -289,6 +289,51 @@ func init() {
 			}
 			return nil
 		},
+		// signals: Notify / Stop are recorded; DeliverSignal hands the signal to every channel
+		// registered for it (non-blocking, as the runtime does)
+		"os/signal.Notify": func(in *Interp, fn *ssa.Function, a []Value, _ ssa.CallInstruction) Value {
+			c, _ := a[0].(*Chan)
+			if c == nil {
+				in.runtimePanic("os/signal: Notify using nil channel")
+			}
+			r := sigReg{ch: c}
+			if sl, ok := a[1].(Slice); ok {
+				for _, e := range sl {
+					if f, ok := e.(Iface); ok {
+						if n, ok := f.V.(uint64); ok {
+							r.sigs = append(r.sigs, n)
+						}
+					}
+				}
+			}
+			in.sigRegs = append(in.sigRegs, r)
+			return nil
+		},
+		"os/signal.Stop": func(in *Interp, fn *ssa.Function, a []Value, _ ssa.CallInstruction) Value {
+			c, _ := a[0].(*Chan)
+			var keep []sigReg
+			for _, r := range in.sigRegs {
+				if r.ch != c {
+					keep = append(keep, r)
+				}
+			}
+			in.sigRegs = keep
+			return nil
+		},
+		harnessPkg + ".DeliverSignal": func(in *Interp, fn *ssa.Function, a []Value, _ ssa.CallInstruction) Value {
+			n := in.concInt(a[0])
+			sigT := in.signalType()
+			for _, r := range in.sigRegs {
+				match := len(r.sigs) == 0
+				for _, s := range r.sigs {
+					match = match || s == uint64(n)
+				}
+				if match && len(r.ch.buf) < r.ch.cap {
+					r.ch.buf = append(r.ch.buf, Iface{T: sigT, V: uint64(n)})
+				}
+			}
+			return nil
+		},
 		harnessPkg + ".Setenv": func(in *Interp, fn *ssa.Function, a []Value, _ ssa.CallInstruction) Value {
 			in.env[argStr(a[0])] = argStr(a[1])
 			return nil
@@ -785,6 +830,17 @@ func intrSortSlice(in *Interp, fn *ssa.Function, a []Value, _ ssa.CallInstructio
 			s[j], s[j-1] = s[j-1], s[j]
 		}
 	}
+	return nil
+}
+
+// signalType is the dynamic type of delivered signals (syscall.Signal).
+func (in *Interp) signalType() types.Type {
+	if p := in.prog.ImportedPackage("syscall"); p != nil {
+		if t := p.Type("Signal"); t != nil {
+			return t.Type()
+		}
+	}
+	engineErr("syscall.Signal not loaded")
 	return nil
 }
 
